@@ -462,6 +462,13 @@ func (s *AbsfsNFS) WriteWithContext(ctx context.Context, node *NFSNode, offset i
 		data = data[:tuning.TransferSize]
 	}
 
+	// A WRITE of no bytes stores nothing and is answered without touching the
+	// backend: an empty WriteAt beyond the end of a file still extends the file
+	// on some backends (memfs), which would take it past MaxFileSize.
+	if len(data) == 0 {
+		return 0, nil
+	}
+
 	// Standard write path
 	f, err := s.fs.OpenFile(node.path, os.O_WRONLY, 0)
 	if err != nil {
